@@ -136,6 +136,8 @@ struct Trace
 		std::fputs(s.c_str(), f);
 		std::fputc('\n', f);
 		n++;
+		if((n & 63) == 0)
+			std::fflush(f);
 	}
 	void flush() { std::fflush(f); }
 	~Trace()
@@ -349,6 +351,7 @@ inline bool& finished_ref()
 inline void intent(const std::string& s) { intent_ref() = s; }
 inline void report_and_die(const char* how)
 {
+	std::fflush(nullptr);
 	std::string msg = std::string("\nVERIF-DIED how=") + how + " intent=" + intent_ref() + "\n";
 	(void)!write(2, msg.data(), msg.size());
 	_exit(77);
